@@ -1660,8 +1660,9 @@ class WriteTool(BaseTool):
                     f.flush()
                     os.fsync(f.fileno())
 
-                # TOCTOU protection: recheck base_hash before replace
-                if base_hash and file_exists:
+                # TOCTOU protection: recheck base_hash before replace. Ask the file system again
+                # (not the entry-time file_exists): a target created since entry must be compared too.
+                if base_hash and path_obj.exists():
                     with open(target_path, encoding="utf-8") as verify_f:
                         verify_content = verify_f.read()
                     verify_hash = self._compute_hash(verify_content)
